@@ -2,12 +2,15 @@
 // radius.Client.SendAccounting (pkg/radius/client.go) on a temporary persistence directory against a
 // real UDP RADIUS accounting server on loopback run by this process (C08).
 //
-// "Server down" = the accounting port is closed, so the client's request fails at once with
-// ECONNREFUSED (no timeouts are waited for).  The crash-point markers added to accounting.go
-// (verifCrashPoint, no-ops without the verif tag) call back into this harness before every
-// transmit/persist/remove step: that is where the next request's up/down answer is applied and where
-// "crash at the k-th marker of this operation" abandons the manager instance (runtime.Goexit in the
-// calling goroutine); `restart` constructs a fresh manager on the same directory.
+// "Server down" = the client's request fails at once with ECONNREFUSED, exactly as for a closed port, so no
+// timeout is ever waited for: the server's UDP socket is connect()ed to another peer for the duration of
+// that request, so the kernel answers the client's datagram with ICMP port-unreachable (see server.set).
+// The crash-point markers added to accounting.go (verifCrashPoint, no-ops without the verif tag) call back
+// into this harness before every transmit/persist/remove step: that is where the next request's up/down
+// answer is applied and where "crash at the k-th marker of this operation" abandons the manager instance
+// (runtime.Goexit in the calling goroutine); `restart` constructs a fresh manager on the same directory.
+// The concurrent goroutines of the shutdown drain are serialised by the same hook (markers 9/10), their
+// order is reported in the observation.
 //
 // Line protocol (see lean/Bng/Drv/Acct.lean):
 //
